@@ -64,6 +64,7 @@ class Contract:
         self.strict_index: list[str] = []
         self.local_contracts: dict[str, 'Contract'] = {}
         self.replay_fields: list[str] = []
+        self.unmodelled: list[str] = []  # receivers whose mutation is outside the modelled state
 
     # -- declaration helpers -------------------------------------------------
     def param(self, name: str, spec: str):
